@@ -283,7 +283,7 @@ pub fn run(ctx: &mut Ctx) {
         "a call still blocked 10 s after it was issued, with the server idle or stopped, counts as an indefinite wait".into(),
         "the server closes the connection after any request error (what VhostUserDaemon does); a server that keeps a dead request's connection open is not modelled".into(),
     ];
-    let n = ctx.tier.pick(6000u32, 120_000u32);
+    let n = ctx.tier.pick(15_000u32, 150_000u32);
     let neg = neg_strategy().prop_map(|mut n| {
         // the gates must be open: all features offered and acknowledged, REPLY_ACK varies with ack_pf
         n.dev_features = spec::VIRTIO_F_PROTOCOL_FEATURES | 0x1_2000_0003;
